@@ -475,6 +475,25 @@ def local_proof(b, bi):
                     sty = (rf.get("self_ty") or "")
                     if rf.get("trait") == "std::io::Read" and rf.get("name") == "read" and (sty.startswith("std::io::Cursor<") or sty in ("&[u8]",)) and len(ct.origin[2]["args"]) == 2 and _slice_root(b, ct.origin[2]["args"][1]) == root and not _redefined_between(b, (root,), ct.origin[1], bi):
                         return f"bound is the byte count std's {sty.split('<')[0]} reported for a read into this very slice (it clamps to the slice's length)"
+        if k.startswith("call:index:std::ops::RangeTo<") or k.startswith("call:index:std::ops::RangeFrom<"):
+            # the very same slicing (same slice, same bound, neither assigned in between) already succeeded on the
+            # way here: had the bound been too large, that earlier expression would have panicked first
+            root = _slice_root(b, t["args"][0])
+            tr = trace(b, t["args"][1])
+            if root is not None and tr.origin and tr.origin[0] == "agg" and tr.origin[1]["rv"]["ops"] and is_place(tr.origin[1]["rv"]["ops"][0]) and not tr.origin[1]["rv"]["ops"][0]["p"]["pr"]:
+                bound = _copy_root(b, tr.origin[1]["rv"]["ops"][0]["p"]["l"])
+                for ob, ot in b.calls():
+                    if ob == bi or kind_of_call(fn_of(ot) or {}) != k or not b.dominates(ob, bi) or _slice_root(b, ot["args"][0]) != root:
+                        continue
+                    otr = trace(b, ot["args"][1])
+                    if not (otr.origin and otr.origin[0] == "agg" and otr.origin[1]["rv"]["ops"] and is_place(otr.origin[1]["rv"]["ops"][0]) and not otr.origin[1]["rv"]["ops"][0]["p"]["pr"]):
+                        continue
+                    if _copy_root(b, otr.origin[1]["rv"]["ops"][0]["p"]["l"]) != bound:
+                        continue
+                    between = b.reachable_from(b.succ(ob), removed_nodes=[bi])
+                    stale = any(db != bi and db in between and bi in b.reachable_from(db) for r_ in (root, bound) for db, _, _, _ in b.whole_defs(r_))
+                    if not stale:
+                        return "the same slice was already cut at the same bound on every path here (the earlier expression would have panicked first)"
         if k.startswith("call:index:std::ops::RangeFull"):
             return "[..] cannot fail"
         if k in ("call:result.expect", "call:result.unwrap") and t["args"]:
@@ -1239,3 +1258,215 @@ def r04_7(ctx):
             ctx.ob("control:raw-marker-sizes", ng == 1 and len(bad) == 31, "tables/controls/src/lib.rs", f"control fast path with a too-wide fixstr mask: {len(bad)} byte value(s) flagged (negative fixints 0xe1..=0xff; 0xe0 happens to get size 1)", trivial=True)
         else:
             ctx.ob("control:raw-marker-sizes", False, "tables/controls/src/lib.rs", "control function raw_marker_fast_path not found")
+
+
+def _copy_root(b, l, depth=0):
+    """Follow single-definition plain copies of a local back to where the value comes from."""
+    ds = b.whole_defs(l)
+    if depth < 8 and len(ds) == 1 and ds[0][2] == "assign" and ds[0][3]["rv"]["k"] == "use" and is_place(ds[0][3]["rv"]["op"]) and not ds[0][3]["rv"]["op"]["p"]["pr"]:
+        return _copy_root(b, ds[0][3]["rv"]["op"]["p"]["l"], depth + 1)
+    return l
+
+
+def _advanced_in_step(b, counter, whole, test_block):
+    """The remainder local R with the loop invariant len(R) == len(whole) - counter, or None: `counter` starts at 0 and
+    its only other definition adds a step S to it; R starts as `whole` and its only other definition is `&R[S..]` with
+    the same S; between two evaluations of a test at the loop head both advance exactly once."""
+    cds = b.whole_defs(counter)
+    if len(cds) != 2:
+        return None
+    step = adv_c = None
+    init_ok = False
+    for db, _, kind, payload in cds:
+        if kind != "assign":
+            return None
+        rv = payload["rv"]
+        if rv["k"] == "use" and const_value(rv["op"]) == 0:
+            init_ok = True
+            continue
+        src = rv
+        if rv["k"] == "use" and is_place(rv["op"]) and [e["k"] for e in rv["op"]["p"]["pr"]] == ["field"]:
+            ads = b.whole_defs(rv["op"]["p"]["l"])
+            if len(ads) == 1 and ads[0][2] == "assign":
+                src = ads[0][3]["rv"]
+        if src["k"] == "binop" and src["op"] in ("Add", "AddWithOverflow"):
+            for x, y in ((src["a"], src["b"]), (src["b"], src["a"])):
+                if is_place(x) and not x["p"]["pr"] and x["p"]["l"] == counter and is_place(y) and not y["p"]["pr"]:
+                    step, adv_c = _copy_root(b, y["p"]["l"]), db
+    if not init_ok or step is None:
+        return None
+    for rem in range(len(b.locals)):
+        if not b.local_ty(rem).startswith("&"):
+            continue
+        rds = b.whole_defs(rem)
+        if len(rds) != 2:
+            continue
+        init = adv_r = None
+        for db, _, kind, payload in rds:
+            if kind != "assign" or payload["rv"]["k"] != "use" or not is_place(payload["rv"]["op"]):
+                init = adv_r = None
+                break
+            src = _slice_root(b, payload["rv"]["op"])
+            if src == whole:
+                init = db
+                continue
+            ids = b.whole_defs(src) if src is not None else []
+            if len(ids) == 1 and ids[0][2] == "call":
+                t = ids[0][3]
+                f = fn_of(t) or {}
+                if f.get("trait") in SLICING and len(t["args"]) == 2 and _slice_root(b, t["args"][0]) == rem:
+                    rt = trace(b, t["args"][1])
+                    if rt.origin and rt.origin[0] == "agg" and rt.origin[1]["rv"].get("variant", rt.origin[1]["rv"].get("agg", "")).endswith("RangeFrom"):
+                        o = rt.origin[1]["rv"]["ops"][0]
+                        if is_place(o) and not o["p"]["pr"] and _copy_root(b, o["p"]["l"]) == step:
+                            adv_r = db
+        if init is None or adv_r is None:
+            continue
+        # both advance once per trip: neither can be skipped or repeated on the way back to itself
+        if adv_c in b.reachable_from(b.succ(adv_c), removed_nodes=[adv_r]) or adv_r in b.reachable_from(b.succ(adv_r), removed_nodes=[adv_c]):
+            continue
+        # ... and the test is not evaluated between the two advances
+        if adv_c != adv_r and test_block in b.reachable_from(b.succ(adv_c), removed_nodes=[adv_r]) and test_block in b.reachable_from(b.succ(adv_r), removed_nodes=[adv_c]):
+            continue
+        return rem
+    return None
+
+
+def _nonempty_edges(b):
+    """[(root slice local, (src block, dst block))]: CFG edges of body b on which that slice is known to be non-empty
+    (`is_empty()` false, a length compared with a constant, a `[]` pattern not matched, `first()`/`split_first()` Some)."""
+    out = []
+    cur = [None]
+
+    def resolve(op, neg=False, depth=0):
+        """-> ('bool', root, value_when_empty) | ('len', root) | ('opt', root) | None"""
+        if not is_place(op) or op["p"]["pr"] or depth > 6:
+            return None
+        l = op["p"]["l"]
+        root = _len_of(b, op)
+        if root is not None:
+            return ("len", root)
+        ds = b.whole_defs(l)
+        if len(ds) != 1:
+            return None
+        _, _, kind, payload = ds[0]
+        if kind == "call":
+            f = fn_of(payload) or {}
+            d = f.get("def", "")
+            if d.startswith("core::slice") and f.get("name") == "is_empty" and payload["args"]:
+                r = _slice_root(b, payload["args"][0])
+                return ("bool", r, 0 if neg else 1) if r is not None else None
+            if d.startswith("core::slice") and f.get("name") in ("first", "split_first", "last", "split_last", "first_mut") and payload["args"]:
+                r = _slice_root(b, payload["args"][0])
+                return ("opt", r) if r is not None else None
+            return None
+        rv = payload["rv"]
+        if rv["k"] == "use":
+            return resolve(rv["op"], neg, depth + 1)
+        if rv["k"] == "unop" and rv["op"] == "Not":
+            return resolve(rv["a"], not neg, depth + 1)
+        if rv["k"] == "discr":
+            inner = resolve({"k": "copy", "p": {"l": rv["p"]["l"], "pr": []}}, neg, depth + 1) if not rv["p"]["pr"] else None
+            return inner if inner and inner[0] == "opt" else None
+        if rv["k"] == "binop" and rv["op"] in ("Eq", "Ne", "Lt", "Le", "Gt", "Ge"):
+            for x, y, flip in ((rv["a"], rv["b"], False), (rv["b"], rv["a"], True)):
+                c = const_value(y)
+                if c is None and is_place(y):
+                    ct_ = trace(b, y)
+                    if ct_.origin and ct_.origin[0] == "const" and all(x_[0] == "use" for x_ in ct_.steps):
+                        c = ct_.origin[1].get("v")
+                r = _len_of(b, x) if is_place(x) else None
+                if r is None or not isinstance(c, int):
+                    continue
+                lhs, rhs = (0, c) if not flip else (c, 0)
+                v = {"Eq": lhs == rhs, "Ne": lhs != rhs, "Lt": lhs < rhs, "Le": lhs <= rhs, "Gt": lhs > rhs, "Ge": lhs >= rhs}[rv["op"]]
+                v = int(v) ^ int(neg)
+                return ("bool", r, v)
+            if rv["op"] in ("Eq", "Ne"):
+                # `consumed == whole.len()` where a remainder is advanced in step with the counter
+                for x, y in ((rv["a"], rv["b"]), (rv["b"], rv["a"])):
+                    whole = _len_of(b, x) if is_place(x) else None
+                    if whole is None or not is_place(y) or y["p"]["pr"]:
+                        continue
+                    rem = _advanced_in_step(b, _copy_root(b, y["p"]["l"]), whole, cur[0])
+                    if rem is not None:
+                        return ("bool", rem, int(rv["op"] == "Eq") ^ int(neg))
+        return None
+
+    for bi in sorted(b.reach()):
+        t = b.blocks[bi]["term"]
+        if t["k"] != "switch":
+            continue
+        cur[0] = bi
+        r = resolve(t["discr"])
+        if r is None:
+            continue
+        if r[0] == "bool":
+            when_empty = r[2]
+            for v, tgt in t["targets"]:
+                if v != when_empty:
+                    out.append((r[1], (bi, tgt)))
+            if when_empty in [v for v, _ in t["targets"]] and when_empty != "otherwise":
+                # the otherwise edge carries every value not listed: with the empty value listed it is non-empty
+                out.append((r[1], (bi, t["otherwise"])))
+        elif r[0] == "len":
+            listed = [v for v, _ in t["targets"]]
+            for v, tgt in t["targets"]:
+                if v != 0:
+                    out.append((r[1], (bi, tgt)))
+            if 0 in listed:
+                out.append((r[1], (bi, t["otherwise"])))
+        elif r[0] == "opt":
+            for v, tgt in t["targets"]:
+                if v == 1:
+                    out.append((r[1], (bi, tgt)))
+    return out
+
+
+@rule("R04.8", 1, "the work of the MessagePack size calculator is bounded by the input, not by a declared element count: a sizing call that is repeated (in a loop or an iterator closure) is only made on a remainder that was just tested non-empty, so a 5-byte header announcing 2^32-1 elements ends at the first missing element instead of spinning", ["C04"])
+def r04_8(ctx):
+    import r_c18
+
+    lib = ctx.lib
+    sccs, _ = r_c18._sccs(lib)
+    ctx.need(sccs, "size calculator (recursive component) not found")
+    comp = set(sccs[0])
+    n = 0
+    for b in lib.bodies:
+        if r_c18._root_of(lib, b).id not in comp:
+            continue
+        is_closure = b.raw["def_kind"] == "Closure"
+        edges = None
+        for bb, t in b.calls():
+            f = fn_of(t) or {}
+            cal = lib.by_id.get(f.get("resolved") or f.get("def")) if f.get("local") else None
+            if cal is None or r_c18._root_of(lib, cal).id not in comp or not t["args"]:
+                continue
+            on_cycle = t["target"] is not None and bb in b.reachable_from(t["target"])
+            if not (on_cycle or is_closure):
+                continue
+            # only callees that answer "0 bytes" for an empty input need the caller's guard
+            n += 1
+            root = _slice_root(b, t["args"][0])
+            if edges is None:
+                edges = _nonempty_edges(b)
+            ok = False
+            why = "the remainder passed to this repeated sizing call is not tested for emptiness first"
+            for r, (src, dst) in edges:
+                if r != root:
+                    continue
+                starts = [0] + [db for db, _, _, _ in b.whole_defs(root)]
+                reach = b.reachable_from(starts, removed_edges=[(src, dst)])
+                # a definition in the call's own block cannot come before the call (the call ends the block)
+                if bb not in reach:
+                    ok = True
+                    break
+                why = "an emptiness test of the remainder exists, but the call can be reached without passing its non-empty edge after the remainder was last advanced"
+            ctx.ob(f"repeated-call-on-nonempty:{r_c18._root_of(lib, b).name}:{_nth(_r048_seen, (ctx.config, r_c18._root_of(lib, b).id))}", ok, site(b, bb),
+                   "repeated sizing call guarded: the slice it is given was tested non-empty since it was last advanced" if ok else
+                   why + ": with input that ends early every remaining iteration sizes an empty slice as 0 bytes, and a declared count of up to 2^32-1 (per nesting level) is run through without consuming anything")
+    _r048_seen.clear()
+    ctx.ob("repeated-sizing-calls", n >= 1, "lib", f"{n} repeated call(s) into the size calculator examined")
+
+
+_r048_seen = {}
